@@ -108,6 +108,16 @@ same lines, they keep their last honest result.
   (Kauri `begin` keeps the senders of the last view) and C17-r4m3 (`IsSubSet` arguments swapped) by the whole-tree
   `ktree` family as well as the node family. C11-r4m3 (the key is inserted before the verification and removed
   on failure — sequentially equivalent) is reported through the call-order facts, not through a failing input.
+* Round 5 (after repair a284fef and the change of the view-change oracle rules; 18 changes against C01, C03, C05,
+  C07, C10, C15): 15 reported at once, three after new scenarios. C03-r5m3 (VerifyQuorumCert accepts a certificate
+  that UNDERSTATES its view): relabelled certificates only went upwards, and a replica still waiting for the genuine
+  certificate defers the proposal anyway; the replica is now moved into the proposal's view first. C07-r5m3
+  (`hasDuplicateSigners` compares neighbours only): timeout certificates with signers (a, b, a, …) in new-view
+  messages. C05-r5m2 (the proposer's walk over earlier blocks uses LocalGet, so a leader that fell behind cannot
+  propose): lag runs with ROTATING leaders in which the member that fell behind leads the first view after the
+  partition heals and knows the high QC from timeout messages only (corpus/clusterlive/03). C05-r5m1 (the timer is
+  restarted before the new view is entered, so it never fires there) is reported through the call-order facts only:
+  real timers are outside what the harness runs.
 * C08-m2 (`signedBy` accepts multi-signer view signatures) was missed: the timeout injection got
   a `multi-viewsig` kind (the sender's genuine signature combined with another replica's).
 * C10-m3 (the RequestBlock handler converts the hash field with a slice-to-array conversion that
